@@ -73,7 +73,7 @@ ASSUMPTIONS = [
 ALPHABET = [
     ["DIFF", 0, "min"], ["DIFF", 1, "min"], ["DIFF", 2, "min"], ["DIFF", 3, "min"],
     ["DIFF", 1, 0], ["DIFF", 1, 5],
-    ["QLPC", [31]], ["QLPC", [31, -8]], ["QLPC", [11, 31, -8]],
+    ["QLPC", []], ["QLPC", [31]], ["QLPC", [31, -8]], ["QLPC", [11, 31, -8]],
     ["ZERO"],
     ["BLOCKSIZE", 1], ["BLOCKSIZE", 3],
     ["BITSHIFT", 0], ["BITSHIFT", 2],
@@ -128,9 +128,12 @@ class Values:
 
     def targets(self, enc):
         c, t0, s = enc.chan, len(enc.out[enc.chan]), enc.bitshift
-        if enc.ftype == S.TYPE_AU2:
+        if enc.ftype in S.ULAW_TYPES:
             mm = S.UlawMap.get(s)
-            return [mm.nearest(self.code[c][(t0 + i) % NVAL]) for i in range(enc.blocksize)]
+            tg = [mm.nearest(self.code[c][(t0 + i) % NVAL]) for i in range(enc.blocksize)]
+            if enc.ftype == S.TYPE_AU1:   # no negative zero in the old mu-law type
+                tg = [mm.pos[0] if t == mm.minus_zero else t for t in tg]
+            return tg
         return [(self.pcm[c][(t0 + i) % NVAL] >> s) << s for i in range(enc.blocksize)]
 
 
@@ -279,7 +282,7 @@ def run_trace(h, ops, seed, mode="both"):
     except S.InvalidTrace:
         return "invalid", [], None
     case = dict(kind="trace", header=h, ops=ops)
-    ulaw = h["ftype"] == S.TYPE_AU2
+    ulaw = h["ftype"] in S.ULAW_TYPES
     viol = []
     if mode != "raw" or not ulaw:
         viol = check_decode(h, enc, case)
@@ -300,7 +303,7 @@ def replay_trace(case, seed):
 
 def headers24():
     out = []
-    for version, ftype, nchan, nmean in itertools.product((1, 2), (3, 5, 8), (1, 2), (0, 4)):
+    for version, ftype, nchan, nmean in itertools.product((1, 2), (3, 5, 8, 0), (1, 2), (0, 4)):
         out.append(dict(version=version, ftype=ftype, nchan=nchan, nmean=nmean, bs0=4, maxnlpc=3,
                         final_short=False))
     return out
@@ -349,7 +352,7 @@ def _seq_point(p, seed):
         case = dict(kind="trace", header=h, ops=[alpha[k] for k in seq])
         v = check_decode(h, e, case)
         st["evals"] += 1
-        if p.get("raw_too") and h["ftype"] == S.TYPE_AU2 and not v:
+        if p.get("raw_too") and h["ftype"] in S.ULAW_TYPES and not v:
             v = check_decode(h, e, case, raw=True)
             st["evals"] += 1
         st["blocks"] += len(e.blocks)
@@ -446,7 +449,7 @@ def _bfs_point(p, seed):
     h = p["header"]
     alpha = alphabet(h)
     vals = Values.get(seed)
-    raw = h["ftype"] == S.TYPE_AU2     # mu-law: compare the codes themselves (keeps -0 / +0 apart)
+    raw = h["ftype"] in S.ULAW_TYPES     # mu-law: compare the codes themselves (keeps -0 / +0 apart)
     viol, evals, skipped, ntrans, digest, last, nhung = [], 0, 0, 0, [], None, 0
     for hist, ks, _ in p["groups"]:
         if nhung >= 2:
@@ -716,7 +719,7 @@ def _long_point(p, seed):
     if "cuts" not in p:
         case = dict(kind="long", header=h)
         v = check_decode(h, enc, case)
-        if not v and h["ftype"] == S.TYPE_AU2:
+        if not v and h["ftype"] in S.ULAW_TYPES:
             v = check_decode(h, enc, case, raw=True)
         return core.result(v, obs=len(fb), impl_calls=1,
                            sample=dict(header=h, file_bytes=len(fb), frames=enc.frames(), blocks=len(enc.blocks)))
